@@ -7,6 +7,7 @@ import Glas.Gen.Lexer
 import Glas.Gen.Parser
 import Glas.Gen.Policy
 import Glas.Model.Items
+import Glas.Model.Check
 /-! Driver commands for M-syntax: `lex`, `parse` (generated lexer rules, generated parser program,
 generated tree-builder policy). -/
 namespace Glas.SyntaxCmd
@@ -57,7 +58,15 @@ def showErr (ranges : List (Nat × Nat)) (total : Nat) (e : Nat × Nat × Nat) :
   let (a, b) := (ranges[e.2.2]?).getD (total, total)
   s!"{name}@{a}-{b}"
 
-def modelFuel (s : List Char) : Nat := 200000 + 400 * s.length
+/-- the constants of `Check.bound glasProg` (computed once per process): `bound glasProg len = fuelConsts.1 + len * fuelConsts.2` -/
+def fuelConsts : Nat × Nat :=
+  let Γ := Glas.Check.infer glasProg
+  (2 + Glas.Check.bodyBound glasProg + Glas.Check.rankBound Γ * Glas.Check.bodyBound glasProg, Glas.Check.tokCost Γ glasProg)
+
+/-- the fuel the driver runs the model with: `bound glasProg` of the number of characters - at least the bound for the
+number of tokens (a token has at least one character), from which on the outcome no longer depends on the fuel
+(`C02_result_stable`) -/
+def modelFuel (s : List Char) : Nat := fuelConsts.1 + s.length * fuelConsts.2
 
 def parseCmd (s : List Char) : String :=
   match parseModel (modelFuel s) s with
